@@ -28,3 +28,23 @@ let handle (x : t) : (int * string list) option =
   | L [I 9; p; k; r] -> Some (cmd_suffix p k r)
   | L [I 11; e; l; c] -> Some (cmd_monitor e l c)
   | _ -> None
+
+(* (12 ((ids)... writer states) ((lo hi (ids))... reads))
+   every read observed one of the writer's complete states between its call
+   and its return (CacheActor.lin_ok) *)
+let cmd_lin states reads =
+  let states = d_list (d_list d_n) states in
+  let ms = ref [] and n = ref 0 in
+  List.iteri (fun i r ->
+      match r with
+      | L [I lo; I hi; obs] ->
+        incr n;
+        if not (lin_ok states (nat_of_int lo) (nat_of_int hi) (d_list d_n obs)) then
+          ms := Printf.sprintf "kind=snapshot read=%d lo=%d hi=%d the observed content is none of the writer's states in that window" i lo hi :: !ms
+      | _ -> bad "read") (match reads with L l -> l | _ -> bad "reads");
+  (!n, List.rev !ms)
+
+let handle (x : t) : (int * string list) option =
+  match x with
+  | L [I 12; states; reads] -> Some (cmd_lin states reads)
+  | _ -> handle x
